@@ -294,11 +294,10 @@ pub fn product_budget_reps(factors: &[&Rat], reps: &[&Rat]) -> Option<Rat> {
 /// round each of them once: f64 16 u relative (None if the result or an
 /// intermediate leaves 2^+-960), decimal 8e-18 * (1 + |R| / min |X|).
 pub fn budget_with(result: &Rat, intermediates: &[&Rat]) -> Option<Rat> {
-    if result.is_zero() {
-        return Some(Rat::zero());
-    }
     #[cfg(not(feature = "dec"))]
     {
+        // the band is checked first: a zero result over an intermediate that
+        // underflows (0 / (5e-324 * 1e-6) = 0 / 0) is outside the model too
         for x in intermediates.iter().copied().chain(std::iter::once(result)) {
             if x.is_zero() {
                 continue;
@@ -312,6 +311,9 @@ pub fn budget_with(result: &Rat, intermediates: &[&Rat]) -> Option<Rat> {
     }
     #[cfg(feature = "dec")]
     {
+        if result.is_zero() {
+            return Some(Rat::zero());
+        }
         let mut lo: Option<Rat> = None;
         for x in intermediates {
             if x.is_zero() {
@@ -324,6 +326,29 @@ pub fn budget_with(result: &Rat, intermediates: &[&Rat]) -> Option<Rat> {
         }
         let lo = lo.unwrap_or_else(Rat::one);
         Some(Budget::abs_dec().mul(&Rat::one().add(&result.abs().div(&lo))))
+    }
+}
+
+/// Budget of a single unit conversion `a * S(from) / S(to)`.  f64: the
+/// product budget.  Decimal: 8 delta (1 + |a| + |R|) - the error of the
+/// rounded unit ratio scaled by the amount, the representation error of the
+/// scales scaled by the result, and the final rounding.  This is tighter than
+/// the order-independent product budget: an implementation that rounds
+/// `a * S(from)` first and then divides by a small `S(to)` amplifies that
+/// rounding by 1 / S(to) and is reported.
+pub fn conversion_budget(a: &Rat, s_from: &Rat, s_to: &Rat) -> Option<Rat> {
+    let st_inv = s_to.recip();
+    #[cfg(not(feature = "dec"))]
+    {
+        product_budget_reps(&[a, s_from, &st_inv], &[s_from, s_to])
+    }
+    #[cfg(feature = "dec")]
+    {
+        let r = a.mul(s_from).mul(&st_inv);
+        if r.is_zero() {
+            return Some(Rat::zero());
+        }
+        Some(Budget::abs_dec().mul(&Rat::one().add(&a.abs()).add(&r.abs())))
     }
 }
 
